@@ -2,7 +2,7 @@
    Z, positive, nat stay Coq inductives). *)
 From Coq Require Import Extraction ExtrOcamlBasic.
 From Coq Require Import List ZArith.
-From DuneV Require Import C14_Model C14_Spec.
+From DuneV Require Import C14_Params C14_Model C14_Spec.
 Extraction Language OCaml.
 Extraction "c14_model.ml"
   c14_rank_dynamic c14_dyn_index c14_init_dyn_only c14_init_dyn_all c14_extents_ctor c14_extent c14_extents_list
@@ -15,6 +15,10 @@ Extraction "c14_model.ml"
   c14_mdarray_new c14_mdarray_get c14_mdarray_set c14_copy_loop c14_mdarray_from_mdspan
   c14_default_acc c14_view_cell c14_view_get c14_copy_loop_acc c14_mdarray_from_mdspan_acc
   c14_view_offset c14_view_swap c14_view_assign c14_array_swap c14_array_assign c14_array_get c14_mapping_eqb
+  c14_is_unique c14_is_strided c14_is_always_unique c14_is_always_exhaustive c14_is_always_strided
+  c14_map_right_w c14_map_left_w c14_map_stride_w
+  c14_subspan_extent c14_span_elems c14_span_size_bytes c14_wrap c14_mdspan_of_extents c14_view_convert
+  c14_mdarray_fill c14_mdarray_of_container c14_mdarray_convert c14_to_mdspan c14_array_set c14_array_eqb c14_mapping_eqb_cross c14_bump
   c14_span_first c14_span_last c14_span_subspan c14_span_at c14_span_index c14_span_front c14_span_back
   c14_prod c14_dot c14_spec_strides_right c14_spec_strides_left c14_spec_right c14_spec_left c14_spec_fill
   c14_unrank_right c14_unrank_left.
